@@ -82,24 +82,29 @@ theorem c18_float_margin (t : Nat) (ht : t ≤ 10) :
   have : t = 0 ∨ t = 1 ∨ t = 2 ∨ t = 3 ∨ t = 4 ∨ t = 5 ∨ t = 6 ∨ t = 7 ∨ t = 8 ∨ t = 9 ∨ t = 10 := by omega
   rcases this with rfl | rfl | rfl | rfl | rfl | rfl | rfl | rfl | rfl | rfl | rfl <;> decide +kernel
 
+/-! Every theorem below about runs holds for every choice of which user callbacks suspend (`sc`, `se`, `sd`: on_connect,
+on_connect_error, on_disconnect await something and return only at the environment's `cbDone`) and whether the device name is
+known (`named`). -/
+
 /-! ## one attempt at a time -/
 
 /-- **C18 (one attempt).**  In every state reachable by ANY sequence of events — start/stop calls, attempt
 completions, session endings, mDNS records, timers, single ready handles in any interleaving — at most one
-task is inside `client.start_connection` / `client.finish_connection`, and that task holds the manager's lock. -/
-theorem c18_one_attempt (named : Bool) (evs : List Ev) :
-    let s := run (init named) evs
+task is suspended under the manager's lock — inside `client.start_connection` / `client.finish_connection` or inside a user
+callback that awaits something — and that task holds the lock. -/
+theorem c18_one_attempt (named sc se sd : Bool) (evs : List Ev) :
+    let s := run (init named sc se sd) evs
     (∀ (i j : Nat) (ti tj : Task), s.tasks[i]? = some ti → s.tasks[j]? = some tj →
         inflightPc ti.pc = true → inflightPc tj.pc = true → i = j) ∧
     (∀ (i : Nat) (t : Task), s.tasks[i]? = some t → inflightPc t.pc = true → s.locked = true) :=
-  let h := run_inv (init named) evs (init_inv named)
+  let h := run_inv (init named sc se sd) evs (init_inv named sc se sd)
   ⟨h.b, h.a⟩
 
 /-- the same as a count -/
-theorem c18_one_attempt_count (named : Bool) (evs : List Ev) :
-    ((run (init named) evs).tasks.filter (fun t => inflightPc t.pc)).length ≤ 1 := by
-  have h := (c18_one_attempt named evs).1
-  generalize (run (init named) evs).tasks = l at h
+theorem c18_one_attempt_count (named sc se sd : Bool) (evs : List Ev) :
+    ((run (init named sc se sd) evs).tasks.filter (fun t => inflightPc t.pc)).length ≤ 1 := by
+  have h := (c18_one_attempt named sc se sd evs).1
+  generalize (run (init named sc se sd) evs).tasks = l at h
   -- two elements of the filtered list would be two distinct indices
   rcases hf : l.filter (fun t => inflightPc t.pc) with _ | ⟨a, _ | ⟨b, rest⟩⟩
   · simp [hf]
@@ -125,53 +130,52 @@ theorem c18_one_attempt_count (named : Bool) (evs : List Ev) :
       omega
 
 /-- **C18 (no attempt during a session).**  In every reachable state a task suspended in `start_connection` means the
-client is starting, one suspended in `finish_connection` means it is finishing; so while a session is live nothing is
-in flight. -/
-theorem c18_no_attempt_while_live (named : Bool) (evs : List Ev) (h : (run (init named) evs).cli = .live) :
-    NoInflight (run (init named) evs) := by
-  intro i t ht
-  have := run_cli (init named) evs (init_inv named) (init_cli named) i t ht
-  cases hp : t.pc <;> simp [inflightPc]
-  · have := this.1 hp; rw [h] at this; cases this
-  · have := this.2 hp; rw [h] at this; cases this
+client is starting, one suspended in `finish_connection` means it is finishing; so while a session is live no task is
+inside a client call. -/
+theorem c18_no_attempt_while_live (named sc se sd : Bool) (evs : List Ev) (h : (run (init named sc se sd) evs).cli = .live)
+    (i : Nat) (t : Task) (ht : (run (init named sc se sd) evs).tasks[i]? = some t) : t.pc ≠ .inStart ∧ t.pc ≠ .inFinish := by
+  have hc := run_cli (init named sc se sd) evs (init_inv named sc se sd) (init_cli named sc se sd) i t
+  constructor <;> intro hp
+  · have := hc .starting ht (by simp [hp, cliOf]); rw [h] at this; cases this
+  · have := hc .finishing ht (by simp [hp, cliOf]); rw [h] at this; cases this
 
 /-! ## the counter is the number of consecutive failures -/
 
 /-- **C18 (n = consecutive failures).**  In every reachable state the failure counter equals what the history says:
-`consec` scans the callbacks — an authentication / encryption `on_connect_error` sets 100, any other adds one,
-`on_connect` and the reset by `start()` clear it.  With `c18_retry_delay` and `c18_backoff`: after the n-th
+`consec` scans the history — a failure counted (when `on_connect_error` has returned) sets 100 for an authentication /
+encryption error and adds one for any other, `on_connect` and the reset by `start()` clear it.  With `c18_retry_delay` and `c18_backoff`: after the n-th
 consecutive failed attempt the retry is armed `min(round(1.8^n), 60)` seconds ahead, 60 s after auth errors. -/
-theorem c18_tries_consecutive (named : Bool) (evs : List Ev) :
-    (run (init named) evs).tries = consec (run (init named) evs).log :=
-  tries_eq_consec named evs
+theorem c18_tries_consecutive (named sc se sd : Bool) (evs : List Ev) :
+    (run (init named sc se sd) evs).tries = consec (run (init named sc se sd) evs).log :=
+  tries_eq_consec named evs sc se sd
 
-example : consec [.attempt, .onConnectError .other, .arm 2, .attempt, .onConnectError .other, .arm 3] = 2 ∧
-    consec [.onConnectError .other, .onConnect, .onDisconnect false, .attempt, .onConnectError .other] = 1 ∧
-    consec [.onConnectError .other, .onConnectError .auth] = 100 := by decide
+example : consec [.attempt, .onConnectError .other, .failCounted .other, .arm 2, .attempt, .onConnectError .other, .failCounted .other, .arm 3] = 2 ∧
+    consec [.failCounted .other, .onConnect, .onDisconnect false, .attempt, .onConnectError .other, .failCounted .other] = 1 ∧
+    consec [.failCounted .other, .onConnectError .auth, .failCounted .auth] = 100 := by decide
 
 /-! ## clean stop -/
 
 /-- **C18 (clean stop).**  Take any reachable state in which the manager is stopped and no earlier `start()` call is
 still waiting for the lock (i.e. `stop()` has returned and `start()` has not been called since).  Then for EVERY
 continuation without a new `start()` — attempt completions, session endings, mDNS records, timers, ready handles —
-the manager stays stopped, no attempt is in flight, no retry timer is armed, it does not listen to mDNS, and
-nothing noisy (a connection attempt, a listener registration, a timer) is ever logged again. -/
-theorem c18_stop_final (named : Bool) (pre post : List Ev)
-    (hs : (run (init named) pre).stopped = true) (hn : NoPendingStart (run (init named) pre))
+the manager stays stopped, the connect task is not busy (not in a client call, not in `on_connect` / `on_connect_error`),
+no retry timer is armed, it does not listen to mDNS, and nothing noisy (a connection attempt, a listener registration, a timer) is ever logged again. -/
+theorem c18_stop_final (named sc se sd : Bool) (pre post : List Ev)
+    (hs : (run (init named sc se sd) pre).stopped = true) (hn : NoPendingStart (run (init named sc se sd) pre))
     (hp : ∀ e ∈ post, e ≠ .callStart) :
-    let s := run (init named) pre
+    let s := run (init named sc se sd) pre
     let s' := run s post
     s'.stopped = true ∧ NoInflight s' ∧ s'.timer = none ∧ s'.zcListening = false ∧
       s'.log.filter noisy = s.log.filter noisy := by
-  have g := run_G (init named) pre (init_G named)
+  have g := run_G (init named sc se sd) pre (init_G named sc se sd)
   obtain ⟨f, l⟩ := run_F _ post hp g.lock ⟨hs, g.stop hs, hn⟩
   exact ⟨f.stopped, f.quiet.n, f.quiet.t, f.quiet.z, l⟩
 
 /-- in EVERY reachable state: stopped ⇒ nothing in flight, no timer, not listening (also while `start()` calls are pending) -/
-theorem c18_stopped_quiet (named : Bool) (evs : List Ev) (hs : (run (init named) evs).stopped = true) :
-    let s := run (init named) evs
+theorem c18_stopped_quiet (named sc se sd : Bool) (evs : List Ev) (hs : (run (init named sc se sd) evs).stopped = true) :
+    let s := run (init named sc se sd) evs
     NoInflight s ∧ s.timer = none ∧ s.zcListening = false :=
-  let q := (run_G (init named) evs (init_G named)).stop hs
+  let q := (run_G (init named sc se sd) evs (init_G named sc se sd)).stop hs
   ⟨q.n, q.t, q.z⟩
 
 /-- the hypotheses of `c18_stop_final` are met after start, a failed attempt and stop; and they matter: a retry timer
@@ -187,18 +191,18 @@ example :
 /-- **C18 (mDNS gate).**  In every reachable state an mDNS record has NO effect while handshaking or connected, while
 stopped, or when it does not match the device; a matching record seen while the manager listens and waits stops
 listening and starts an attempt at once (`scheduleConnect 0`). -/
-theorem c18_zc_gate (named : Bool) (evs : List Ev) (m : Bool) :
-    let s := run (init named) evs
+theorem c18_zc_gate (named sc se sd : Bool) (evs : List Ev) (m : Bool) :
+    let s := run (init named sc se sd) evs
     ((s.state = .handshaking ∨ s.state = .ready) → step s (.zc m) = s) ∧
     (s.stopped = true → step s (.zc m) = s) ∧
     step s (.zc false) = s ∧
     (s.zcListening = true → s.accept = true → s.stopped = false →
       step s (.zc true) = { scheduleConnect (stopZc s) 0 with accept := false }) := by
-  have g := run_G (init named) evs (init_G named)
+  have g := run_G (init named sc se sd) evs (init_G named sc se sd)
   refine ⟨?_, ?_, ?_, ?_⟩
   · intro hst
-    have : (run (init named) evs).accept = false := by
-      cases ha : (run (init named) evs).accept
+    have : (run (init named sc se sd) evs).accept = false := by
+      cases ha : (run (init named sc se sd) evs).accept
       · rfl
       · rcases g.acc ha with h | h <;> rcases hst with h' | h' <;> rw [h] at h' <;> cases h'
     simp [step, this]
@@ -208,26 +212,60 @@ theorem c18_zc_gate (named : Bool) (evs : List Ev) (m : Bool) :
 
 /-! ## the delays -/
 
-/-- **C18 (retry delay).**  A failed attempt arms the retry timer `backoff n` seconds ahead, `n` = the failure count
-after this failure (100 after an authentication / encryption error), and starts listening to mDNS. -/
+theorem startZc_facts (s : St) : (startZc s).now = s.now ∧ (startZc s).tries = s.tries ∧
+    (∀ a ∈ s.log, a ∈ (startZc s).log) ∧ (s.hasName = true → (startZc s).zcListening = true) := by
+  unfold startZc
+  split
+  · refine ⟨rfl, rfl, fun a ha => by simp [emit, ha], fun _ => rfl⟩
+  · rename_i hc
+    refine ⟨rfl, rfl, fun a ha => ha, fun hn => ?_⟩
+    cases hz : s.zcListening
+    · simp [hz, hn] at hc
+    · rfl
+
+theorem afterFail_facts (s : St) (tid : Nat) (hb : backoff s.tries ≠ 0) :
+    (afterFail s tid).timer = some (s.now + backoff s.tries) ∧ (afterFail s tid).tries = s.tries ∧
+    Act.arm (backoff s.tries) ∈ (afterFail s tid).log ∧ (∀ a ∈ s.log, a ∈ (afterFail s tid).log) ∧
+    (s.hasName = true → (afterFail s tid).zcListening = true) := by
+  obtain ⟨h1, h2, h3, h4⟩ := startZc_facts s
+  unfold afterFail
+  simp only [hb, ne_eq, not_false_eq_true, ↓reduceIte, timer_finish, timer_release, timer_emit, tries_finish, tries_release, tries_emit,
+    log_finish, log_release, zcListening_finish, zcListening_release, zcListening_emit]
+  refine ⟨by simp [h1], by simpa [cancelTimer] using h2, by simp [emit], fun a ha => by simp [emit, cancelTimer, h3 a ha], ?_⟩
+  intro hn; simpa [cancelTimer] using h4 hn
+
+/-- **C18 (retry delay).**  When `on_connect_error` has returned, the failure is counted and the retry timer is armed
+`backoff n` seconds ahead, `n` = the failure count after this failure (100 after an authentication / encryption error), and
+the manager starts listening to mDNS. -/
 theorem c18_retry_delay (s : St) (tid : Nat) (k : ErrK) :
     let n := if k = .auth then maxTries else s.tries + 1
-    let s' := afterFail (handleFailure s k) tid
-    s'.timer = some (s.now + backoff n) ∧ s'.tries = n ∧ Act.arm (backoff n) ∈ s'.log ∧ Act.onConnectError k ∈ s'.log ∧
+    let s' := failEnd s k tid
+    s'.timer = some (s.now + backoff n) ∧ s'.tries = n ∧ Act.arm (backoff n) ∈ s'.log ∧ Act.failCounted k ∈ s'.log ∧
       (s.hasName = true → s'.zcListening = true) := by
   have hb := backoff_pos (if k = .auth then maxTries else s.tries + 1)
   have hne : backoff (if k = .auth then maxTries else s.tries + 1) ≠ 0 := by omega
-  simp only [afterFail, handleFailure, setState, emit, cancelTimer, finish, setTask, release, wakeUpFirst, startZc, hne,
-    ne_eq, not_false_eq_true, ↓reduceIte]
-  split <;> split <;> simp_all <;> (intro hn; cases hz : s.zcListening <;> simp_all)
+  obtain ⟨h1, h2, h3, h4, h5⟩ := afterFail_facts (emit { s with tries := if k = .auth then maxTries else s.tries + 1 } (.failCounted k)) tid hne
+  exact ⟨h1, h2, h3, h4 _ (by simp [emit]), h5⟩
 
-/-- **C18 (after a disconnect).**  Handling the end of a session reports it once; when not stopped an expected
-disconnect arms a 5 s cool-down and an unexpected one starts the next attempt at once. -/
+/-- a failed attempt is reported to `on_connect_error` (once, before anything else happens) -/
+theorem c18_error_reported (s : St) (tid : Nat) (k : ErrK) : Act.onConnectError k ∈ (failBegin s k tid).log := by
+  unfold failBegin
+  dsimp only
+  split
+  · simp [setTask, emit]
+  · have hne : backoff (if k = .auth then maxTries else (emit (setState s .disconnected) (.onConnectError k)).tries + 1) ≠ 0 := by
+      have := backoff_pos (if k = .auth then maxTries else (emit (setState s .disconnected) (.onConnectError k)).tries + 1); omega
+    obtain ⟨_, _, _, h4, _⟩ := afterFail_facts (emit { emit (setState s .disconnected) (.onConnectError k) with
+      tries := if k = .auth then maxTries else (emit (setState s .disconnected) (.onConnectError k)).tries + 1 } (.failCounted k)) tid hne
+    exact h4 _ (by simp [emit])
+
+/-- **C18 (after a disconnect).**  Handling the end of a session reports it once (`discLocked` logs `on_disconnect` before
+anything else); when `on_disconnect` has returned and the manager is not stopped, an expected disconnect arms a 5 s
+cool-down and an unexpected one starts the next attempt at once. -/
 theorem c18_disconnect_delay (s : St) (tid : Nat) (expected : Bool) :
-    let s1 := finish (release (emit (setState s .disconnected) (.onDisconnect expected))) tid
-    discLocked s tid expected =
-      if s.stopped then s1 else if expected then scheduleConnect s1 cooldown else callConnectOnce s1 := by
-  simp only [discLocked, stopped_finish, stopped_release, stopped_emit, stopped_setState]
+    let s1 := finish (release s) tid
+    discEnd s tid expected = if s.stopped then s1 else if expected then scheduleConnect s1 cooldown else callConnectOnce s1 := by
+  simp only [discEnd, stopped_finish, stopped_release]
   cases s.stopped <;> cases expected <;> simp [scheduleConnect, cooldown]
 
 /-! ## alternation of on_connect / on_disconnect -/
@@ -240,9 +278,9 @@ events that contains no `stop()` call — start calls, attempt outcomes, session
 handles in any interleaving — the callbacks alternate, starting with `on_connect`; the sequence is "open" exactly while a
 session is live or its end has not been reported yet (`Alt.a5o/a5c`).  What is missing for the full statement is `stop()`:
 with it the claim is false (next theorem). -/
-theorem c18_alternate_partial (named : Bool) (evs : List Ev) (h : ∀ e ∈ evs, e ≠ .callStop) :
-    altState (run (init named) evs).log ≠ none :=
-  alternates_without_stop named evs h
+theorem c18_alternate_partial (named sc se sd : Bool) (evs : List Ev) (h : ∀ e ∈ evs, e ≠ .callStop) :
+    altState (run (init named sc se sd) evs).log ≠ none :=
+  alternates_without_stop named evs h sc se sd
 
 example : altState [.attempt, .onConnect, .arm 5, .onDisconnect true, .attempt, .onConnect] = some true ∧
     altState [.onConnect, .onDisconnect false] = some false ∧
